@@ -291,3 +291,31 @@ func safeRun[C any](o Opts, run func(C) Result, c C) (res Result) {
 	}()
 	return run(c)
 }
+
+// Known runs the fixed reproducer of a recorded finding and reports whether it
+// still reproduces. The driver prints KNOWN-FINDING for reproducing findings
+// that known-findings.json lists as open, and VIOLATION for reproducing ones it
+// does not (e.g. recorded as fixed).
+func Known(t *testing.T, id, finding string, repro func() *Violation) {
+	var v *Violation
+	func() {
+		defer func() {
+			if r := recover(); r != nil {
+				v = V(id, finding+"/panic", "panic: %v", r)
+			}
+		}()
+		v = repro()
+	}()
+	out := map[string]interface{}{"property": id, "finding": finding, "reproduced": v != nil}
+	if v != nil {
+		out["signature"] = v.Signature
+		out["message"] = v.Message
+	}
+	b, _ := json.Marshal(out)
+	_ = os.WriteFile(filepath.Join(outDir(), fmt.Sprintf("known-%s-%s.json", id, finding)), b, 0o644)
+	if v != nil {
+		t.Logf("finding %s still reproduces: %s", finding, v.Message)
+	} else {
+		t.Logf("finding %s no longer reproduces", finding)
+	}
+}
